@@ -67,6 +67,19 @@ def main():
         mod.run(res, tier, have_driver)
     except Exception:
         res.harness_errors.append(traceback.format_exc())
+    # dtml-in with sort / reverse / batch options inside the interpreter model (Render.inx_): C10, C11 and C13 state
+    # theorems about it, so their checks also compare that part of the model with the real classes
+    if pid in ('C10', 'C11', 'C13') and have_driver:
+        try:
+            import interp
+            res.have_driver = True
+            need = {'C10': ('sort=', 'size=', 'start=', 'end=', ' reverse'), 'C11': ('size=', 'start=', 'end='),
+                    'C13': ('sort=', ' reverse')}[pid]
+            n = interp.inx_slice(res, common.rng(pid + '-inx'), 150 if tier == 'quick' else 2500, need=need)
+            res.rule += ('; interpreter slice: %d random programs containing a dtml-in with sort / reverse / batch options '
+                         '(and their fault plans) compared between the Lean interpreter and the real classes' % n)
+        except Exception:
+            res.harness_errors.append(traceback.format_exc())
     try:
         import findings_probe
         findings_probe.run(pid, res)
